@@ -7,11 +7,14 @@ import (
 	pb "github.com/ipfs/boxo/ipld/unixfs/pb"
 	"io"
 	"strings"
+	"sync"
+	"sync/atomic"
 	"testing"
 
 	"github.com/ipfs/go-cid"
 	"github.com/ipfs/go-unixfsnode"
 	"github.com/ipfs/go-unixfsnode/data/builder"
+	"github.com/ipfs/go-unixfsnode/file"
 	dagpb "github.com/ipld/go-codec-dagpb"
 	"github.com/ipld/go-ipld-prime"
 	"github.com/ipld/go-ipld-prime/datamodel"
@@ -149,6 +152,15 @@ func TestC05(t *testing.T) {
 				c.Harness("load: %v", err)
 				return
 			}
+			var generic ipld.Node
+			if f.Root.Prefix().Codec == cid.DagProtobuf {
+				if blk, ok := st.Get(f.Root); ok {
+					nb := basicnode.Prototype.Any.NewBuilder()
+					if dagpb.Decode(nb, bytes.NewReader(blk)) == nil {
+						generic = nb.Build()
+					}
+				}
+			}
 			blocks := len(spans)
 			bnd := map[int64]bool{}
 			for _, b := range f.Boundaries {
@@ -160,12 +172,21 @@ func TestC05(t *testing.T) {
 					c.Count("ranges_on_chunk_boundary", 1)
 				}
 				allowed := allowedFor(spans, f.Root, a, b)
-				for form := 0; form < 3; form++ {
+				for form := 0; form < 4; form++ {
 					// a fresh lazily reified node per request
 					var node ipld.Node
 					var rerr error
 					st.ResetLog() // loads made while reifying lazily count towards the request
-					if !c.Guard("Reify", func() { node, rerr = ls.KnownReifiers["unixfs"](ipld.LinkContext{Ctx: bg}, raw, ls) }) || rerr != nil {
+					if form == 3 {
+						// the direct constructor on the root decoded generically (not as a typed dag-pb node)
+						if generic == nil || len(spans) < 2 {
+							continue
+						}
+						if !c.Guard("NewUnixFSFile(generic)", func() { node, rerr = file.NewUnixFSFile(bg, generic, ls) }) || rerr != nil || node == nil {
+							c.Violation("C05|reify", "file.NewUnixFSFile on a generically decoded root: %v", rerr)
+							return
+						}
+					} else if !c.Guard("Reify", func() { node, rerr = ls.KnownReifiers["unixfs"](ipld.LinkContext{Ctx: bg}, raw, ls) }) || rerr != nil {
 						c.Violation("C05|reify", "lazy reify: %v", rerr)
 						return
 					}
@@ -173,16 +194,23 @@ func TestC05(t *testing.T) {
 					var gerr error
 					what := ""
 					switch form {
-					case 0, 1:
-						lb := node.(largeBytes)
+					case 0, 1, 3:
+						lb, isLB := node.(largeBytes)
+						if !isLB {
+							c.Violation("C05|reify", "node %T has no AsLargeBytes", node)
+							return
+						}
 						c.Guard("Seek+ReadFull", func() {
 							rs, e := lb.AsLargeBytes()
 							if e != nil {
 								gerr = e
 								return
 							}
-							if form == 0 {
+							if form == 0 || form == 3 {
 								what = fmt.Sprintf("Seek(%d,Start)+ReadFull(%d)", a, b-a)
+								if form == 3 {
+									what += " via NewUnixFSFile(generic root)"
+								}
 								_, gerr = rs.Seek(a, io.SeekStart)
 							} else {
 								what = fmt.Sprintf("Seek(%d,End)+ReadFull(%d)", a-n, b-a)
@@ -215,7 +243,7 @@ func TestC05(t *testing.T) {
 						c.Violation("C05|wrong-bytes", "%s on %s returned %d bytes err=%v, want content[%d:%d]", what, f.Name, len(got), gerr, a, b)
 						return
 					}
-					checkSubset(c, "C05|file-overfetch|"+[]string{"seek-start", "seek-end", "subset-matcher"}[form], what+" on "+f.Name, log, allowed)
+					checkSubset(c, "C05|file-overfetch|"+[]string{"seek-start", "seek-end", "subset-matcher", "generic-root"}[form], what+" on "+f.Name, log, allowed)
 					// the reader returned the right bytes, so it must have fetched every leaf it needed
 					need := 0
 					for k := range allowed {
@@ -298,6 +326,46 @@ func TestC05(t *testing.T) {
 						c.Count("history_steps", 1)
 						checkSubset(c, "C05|file-overfetch|history", what+" on "+f.Name, st.ReadCids(), allowedFor(spans, f.Root, a, b))
 					}
+				}
+			}
+			// several goroutines, each with its own reader on ONE cold node, all asking for the first
+			// byte at once: together they may fetch only what the first byte needs
+			if n >= 2 && len(spans) >= 3 {
+				allowed := allowedFor(spans, f.Root, 0, 1)
+				for round := 0; round < 6; round++ {
+					node, rerr := ls.KnownReifiers["unixfs"](ipld.LinkContext{Ctx: bg}, raw, ls)
+					if rerr != nil {
+						break
+					}
+					st.ResetLog()
+					var wg sync.WaitGroup
+					start := make(chan struct{})
+					var bad int32
+					for g := 0; g < 8; g++ {
+						wg.Add(1)
+						go func() {
+							defer wg.Done()
+							defer func() { recover() }()
+							<-start
+							rs, err := node.(largeBytes).AsLargeBytes()
+							if err != nil {
+								atomic.AddInt32(&bad, 1)
+								return
+							}
+							one := make([]byte, 1)
+							if _, err := io.ReadFull(rs, one); err != nil || one[0] != f.Content[0] {
+								atomic.AddInt32(&bad, 1)
+							}
+						}()
+					}
+					close(start)
+					wg.Wait()
+					c.Count("concurrent_first_reads", 8)
+					if bad > 0 {
+						c.Violation("C05|wrong-bytes", "%d of 8 concurrent readers of the first byte of %s failed or read a wrong byte", bad, f.Name)
+						break
+					}
+					checkSubset(c, "C05|file-overfetch|concurrent-first-read", "8 goroutines reading byte 0 of one cold node of "+f.Name, st.ReadCids(), allowed)
 				}
 			}
 			depth, spine, _ := shapeOf(walkerFor(f.St), f.Root)
